@@ -10,6 +10,7 @@ import FqeVerif.Model.Hamil
 import FqeVerif.Model.Evolve
 import FqeVerif.Model.Algo
 import FqeVerif.Model.Guards
+import FqeVerif.Model.Wick
 namespace Driver
 open Fock Model
 
@@ -196,6 +197,16 @@ def cmd (name : String) : P String := do
       let idxs ← many k (many groups.length nat)
       let t := rdmSpecAt norb mode bra ket groups pat idxs
       return " ".intercalate (toString t.length :: t.map GQ.toStr)
+  -- Model: normal form of the Wick driver (spin-orbital requests).  `<n> (label dag)*n` ->
+  -- `<k>` then per entry `neg nd (x y)*nd nops (label dag)*nops`
+  | "wicknf" => do
+      let n ← nat
+      let pat ← many n (do let l ← nat; let d ← nat; return (l, d != 0))
+      let items := wickNormalForm pat
+      let showItem := fun (it : WItem) =>
+        s!"{b2n it.neg} {it.deltas.length} " ++ " ".intercalate (it.deltas.map (fun d => s!"{d.1} {d.2}")) ++
+        s!" {it.ops.length} " ++ " ".intercalate (it.ops.map (fun o => s!"{o.1} {b2n o.2}"))
+      return s!"{items.length} " ++ " ".intercalate (items.map showItem)
   -- Model: reverse_bubble_list on a list of keys: `<n> keys` -> `<swaps> <n> sorted keys`
   | "bubble" => do
       let l ← natList
